@@ -277,9 +277,29 @@ def _concrete_run(pkg, fi, pvals, assumptions=None, param_classes=None, valuatio
     except Exception:
         return False, None, None, it
     rets = [o for o in outs if o.kind == "return"]
-    if rets or not outs:
-        return False, None, (rets[0] if rets else None), it
-    return True, outs[-1].exc, outs[-1], it
+    raises = [o for o in outs if o.kind == "raise"]
+    if not outs:
+        return False, None, None, it
+    import re as _re
+    names = [k for k in pvals if isinstance(k, str) and k != kw] + [k for k, _v in extra]
+
+    def about_probe(o):
+        """does the exit hang on an UNDECIDED test that mentions a probed parameter (conds only list undecided tests)?"""
+        return any(any(_re.search(r"\b" + _re.escape(nm) + r"\b", txt) for nm in names) for txt, _pol in o.conds)
+    if rets:
+        # accepted - unless a raising exit hangs on a test of the probed value that the interpreter could not decide (a type
+        # predicate it does not know, say): then neither "accepted" nor "rejected" may be claimed
+        for o in raises:
+            if o.conds and all(any(_re.search(r"\b" + _re.escape(nm) + r"\b", txt) for nm in names) and _re.search(r"isinstance\(|issubdtype\(|\btype\(|\bcallable\(|\bnot in\b|\bin\b", txt)
+                               for txt, _pol in o.conds):
+                return None, o.exc, o, it
+        return False, None, rets[0], it
+    last = raises[-1] if raises else None
+    if last is not None and not about_probe(last):
+        return True, last.exc, last, it
+    # no returning path, and the deciding raise hangs on a test of the probed value that was not decided: the analysis lost the
+    # thread there, it did not see a rejection
+    return None, last.exc if last else None, last, it
 
 
 def _num(x):
@@ -329,6 +349,10 @@ def check_range_guard(ctx, rule, fi, param, reject, exc, what, env=None, accept_
         if pts == before:
             break
     missed, wrong_exc = [], []
+    undecided = [x for x in list(reps) + list(accept_sample) if probe(x)[0] is None]
+    if undecided:
+        ctx.unknown(rule, fi, fi.node, f"guard on `{param}`: {what}", f"not decided for {param} in {{{', '.join(str(float(x)) for x in undecided[:4])}}}: a test on the path could not be evaluated")
+        return
     for x in reps:
         rej, e, out, _n = probe(x)
         if reject(x):
@@ -366,6 +390,9 @@ def check_pow2_guard(ctx, rule, fi, assumptions=None, extra=None, min_m=1, param
         pv["M"] = Form.num(m)
         rej, e, out, _it = _concrete_run(ctx.pkg, fi, pv, assumptions or {}, param_classes)
         pow2 = m & (m - 1) == 0 and m >= min_m
+        if rej is None:
+            ctx.unknown(rule, fi, fi.node, f"{fi.qualname}: M power-of-two guard", f"not decided for M = {m}: a test on the path could not be evaluated")
+            return
         if rej == pow2:
             wrong.append(m)
             where = out.node if out is not None else where
@@ -446,10 +473,13 @@ def check_type_guard(ctx, rule, fi, param, exc, must_accept, must_reject, interp
             ctx.unknown(rule, fi, fi.node, f"type guard on `{param}`", f"no representative value for type {t}")
             return
         rej, e, out, _it = r
+        if rej is None:
+            ctx.unknown(rule, fi, fi.node, f"type guard on `{param}`", f"not decided for a {t} value: a test on the path could not be evaluated")
+            return
         if not rej:
             probs.append(f"a {t} value of `{param}` is accepted but must raise {exc}")
             where = out.node if out is not None else where
-        elif e != exc:
+        elif (e not in exc) if isinstance(exc, tuple) else (e != exc):
             probs.append(f"a {t} value of `{param}` raises {e}, documented {exc}")
             where = out.node if out is not None else where
         elif where is fi.node and out is not None:
@@ -460,6 +490,9 @@ def check_type_guard(ctx, rule, fi, param, exc, must_accept, must_reject, interp
             ctx.unknown(rule, fi, fi.node, f"type guard on `{param}`", f"no representative value for type {t}")
             return
         rej, e, out, _it = r
+        if rej is None:
+            ctx.unknown(rule, fi, fi.node, f"type guard on `{param}`", f"not decided for a {t} value: a test on the path could not be evaluated")
+            return
         if rej:
             probs.append(f"documented-accepted type {t} of `{param}` is rejected ({e})")
             where = out.node if out is not None else where
